@@ -217,7 +217,10 @@ NoopCases ==
 (* ---- export ---------------------------------------------------------------- *)
 DumpMix ==
   PrintT(<<"@@J", ToJson([P |-> sh.P, N |-> sh.N, A |-> sh.A, G |-> G, rds |-> rds,
-                          f |-> FactorSeq(rds, G, A), den |-> Den])>>)
+                          f |-> FactorSeq(rds, G, A), den |-> Den,
+                          \* per-read, per-haplotype product numerators: the harness raises them to the T-th power to get the
+                          \* exact mixture numerator of the same instance with its SNV columns repeated T times (long loci)
+                          hn |-> [i \in 1..Len(rds) |-> [h \in 1..sh.P |-> HapNum(rds[i][1], G[h], A)]]])>>)
 DumpStruct ==
   IF phase = "done"
   THEN PrintT(<<"@@J", ToJson([P |-> sh.P, N |-> sh.N, A |-> sh.A, G |-> G, idx |-> idx, lo |-> lo, hi |-> hi,
